@@ -212,36 +212,38 @@ func findRoute(
 			return "", log, false
 		}
 
-		// Remove selected backend from list to avoid retrying it
-		for i, backend := range tryBackends {
-			normalizedBackend, err := netutil.Parse(backend, src.RemoteAddr().Network())
-			if err != nil {
+		// Remove the selected backend from the list to avoid retrying it. Every entry that
+		// denotes the same address (a duplicate, or the same host written with and without
+		// the default port) is removed with it, so one attempt dials a backend at most once.
+		network := src.RemoteAddr().Network()
+		selectedAddr, selectedOK := normalizeBackendAddr(backendAddr, network)
+		remaining := tryBackends[:0]
+		for _, backend := range tryBackends {
+			addr, ok := normalizeBackendAddr(backend, network)
+			if ok && selectedOK && addr == selectedAddr {
 				continue
 			}
-			normalizedAddr := normalizedBackend.String()
-			if _, port := netutil.HostPort(normalizedBackend); port == 0 {
-				normalizedAddr = net.JoinHostPort(normalizedBackend.String(), "25565")
-			}
-
-			normalizedSelected, err := netutil.Parse(backendAddr, src.RemoteAddr().Network())
-			if err != nil {
-				continue
-			}
-			selectedAddr := normalizedSelected.String()
-			if _, port := netutil.HostPort(normalizedSelected); port == 0 {
-				selectedAddr = net.JoinHostPort(normalizedSelected.String(), "25565")
-			}
-
-			if normalizedAddr == selectedAddr {
-				tryBackends = append(tryBackends[:i], tryBackends[i+1:]...)
-				break
-			}
+			remaining = append(remaining, backend)
 		}
+		tryBackends = remaining
 
 		return backendAddr, newLog.WithValues("backendAddr", backendAddr), true
 	}
 
 	return log, src, route, host, nextBackend, nil
+}
+
+// normalizeBackendAddr returns the backend address with the default port made explicit.
+func normalizeBackendAddr(backend, network string) (string, bool) {
+	normalized, err := netutil.Parse(backend, network)
+	if err != nil {
+		return "", false
+	}
+	addr := normalized.String()
+	if _, port := netutil.HostPort(normalized); port == 0 {
+		addr = net.JoinHostPort(normalized.String(), "25565")
+	}
+	return addr, true
 }
 
 func dialRoute(
